@@ -120,6 +120,11 @@ func runC19(c *kit.Ctx) {
 		}
 	}
 
+	// closeAll closes what the cache holds: a connection the cache forgot while it was alive stays open
+	// (with its two goroutines) after Close
+	clientDownOnlyWhenDead(c, p.Func("", "client", "handleResultError"), est)
+	cacheEntriesLeaveOnlyWhenDead(c)
+
 	// ---- R3 ---------------------------------------------------------------
 	c.StartRule("R3", "waits and establishers observe the closed signal", 6)
 	{
@@ -168,6 +173,35 @@ func runC19(c *kit.Ctx) {
 			}
 		}
 		c.Check(good, rees, "reestablish-tests-done", rees.Pos(), "tests c.done first and establishes only when it is open", "reestablishRegion no longer refuses to start after Close")
+		// an establisher is started through reestablishRegion (which tests the closed signal), or
+		// directly after a lookup that succeeded in the same function (lookups observe the signal)
+		{
+			estName := kit.M("", "*client", "establishRegion")
+			n := 0
+			for _, fn := range p.Funcs {
+				kit.Instrs(fn, func(in ssa.Instruction) {
+					ci, ok := in.(ssa.CallInstruction)
+					if !ok || kit.CalleeName(ci) != estName {
+						return
+					}
+					n++
+					if fn == rees {
+						c.OK(fn, "establisher-start", ci.Pos(), "inside reestablishRegion (tested above)")
+						return
+					}
+					good := false
+					for _, l := range append(kit.Calls(fn, kit.M("", "*client", "lookupRegion")), kit.Calls(fn, kit.M("", "*client", "lookupAllRegions"))...) {
+						if kit.Dominates(l.(ssa.Instruction), in) {
+							good = true
+						}
+					}
+					c.Check(good, fn, "establisher-start", ci.Pos(), "started after a lookup of this function succeeded", "an establisher is started without passing the closed test of reestablishRegion and without a lookup that would have observed Close: after Close, a straggler request makes the closed client look regions up (ZooKeeper, hbase:meta) in the background, forever if the lookup keeps failing")
+				})
+			}
+			if n < 3 {
+				c.Unk(est, "establisher-start", est.Pos(), "fewer establisher start sites than confirmed (3)")
+			}
+		}
 		for _, fn := range []*ssa.Function{lr, lar} {
 			// return on err == ErrClientClosed not preceded by the back-off
 			found := false
